@@ -60,7 +60,8 @@ theorem valid_env {e : EnvD} (h : EnvOk e) : validNode schema "environment" (env
   have ht : validNode schema "xs:time" (leaf "time" (timeText e.hours e.minutes)) = true :=
     validNode_simple stime "time" (by simp [Simple.accepts, timeText_ok _ h.1 _ h.2.1])
   rw [envNode, el_valid pt_env (ts := ["xs:time", "timeOfDay", "weather", "underground"]) (by simpa [leaf, Xml.name] using hm)]
-  simp only [validKids, ht, leaf_enum _ _ _ h.2.2.1, leaf_enum _ _ _ h.2.2.2.1, leaf_enum _ _ _ h.2.2.2.2, Bool.and_self]
+  simp only [validKids, ht, leaf_enum _ _ _ (ok_timeOfDay h.2.2.1), leaf_enum _ _ _ (ok_weather h.2.2.2.1),
+    leaf_enum _ _ _ (ok_underground h.2.2.2.2.1 h.2.2.2.2.2), Bool.and_self]
 
 theorem pt_location : PlainType "location" := by unfold PlainType; decide
 
@@ -89,27 +90,42 @@ theorem valid_location {l : LocationD} (h : LocationOk l) : validNode schema "lo
   have := seq_assembly pt_location (by decide) "location" [] (by rfl) _ hf (by simp)
   simpa [locationNode, el, List.append_assoc] using this
 
+theorem tag_values_nodup' : ∀ {tags : List String}, TagsOk tags → (tags.map (enumValue CR.Py.Gen.tag)).Nodup
+  | [], _ => by simp
+  | t :: ts, h => by
+    have hn := h.1
+    rw [List.nodup_cons] at hn
+    rw [List.map_cons, List.nodup_cons]
+    refine ⟨?_, tag_values_nodup' ⟨hn.2, fun x hx => h.2 x (List.mem_cons_of_mem _ hx)⟩⟩
+    intro hm
+    obtain ⟨u, hu, hv⟩ := List.mem_map.mp hm
+    have := tag_value_inj (h.2 u (List.mem_cons_of_mem _ hu)) (h.2 t List.mem_cons_self) hv
+    subst this; exact hn.1 hu
+
 theorem valid_tags {tags : List String} (h : TagsOk tags) : validNode schema "tag" (tagsNode tags) = true := by
-  have hnames : (tags.map fun t => leaf t []).map Xml.name = tags := by
-    rw [List.map_map]; conv => rhs; rw [← List.map_id tags]
+  have hnames : ((tags.map (enumValue CR.Py.Gen.tag)).map fun t => leaf t []).map Xml.name = tags.map (enumValue CR.Py.Gen.tag) := by
+    rw [List.map_map]; conv => rhs; rw [← List.map_id (tags.map (enumValue CR.Py.Gen.tag))]
     apply List.map_congr_left; intro t _; rfl
   have hl : schema.lookup "tag" = some (.complex [] false (.all (stateEs "tag"))) := by decide
   have hstr : (stateEs "tag").all (fun e => e.type == "xs:string" && e.min == 0) = true := by decide
-  refine all_assembly hl (by decide) "scenarioTags" [] (by rfl) _ (by rw [hnames]; exact h.1) ?_ ?_ ?_
+  have hnd := tag_values_nodup' h
+  refine all_assembly hl (by decide) "scenarioTags" [] (by rfl) _ (by rw [hnames]; exact hnd) ?_ ?_ ?_
   · intro k hk
-    obtain ⟨t, ht, rfl⟩ := List.mem_map.mp hk
-    exact h.2 t ht
+    obtain ⟨v, hv, rfl⟩ := List.mem_map.mp hk
+    obtain ⟨t, ht, rfl⟩ := List.mem_map.mp hv
+    exact ok_tag (h.2 t ht)
   · intro e he hmin
     rw [List.all_eq_true] at hstr
     have := hstr e he
     simp [hmin] at this
   · intro k hk
-    obtain ⟨t, ht, rfl⟩ := List.mem_map.mp hk
-    obtain ⟨e, he, _, hty⟩ := typeOfIn_mem (h.2 t ht)
+    obtain ⟨v, hv, rfl⟩ := List.mem_map.mp hk
+    obtain ⟨t, ht, rfl⟩ := List.mem_map.mp hv
+    obtain ⟨e, he, _, hty⟩ := typeOfIn_mem (ok_tag (h.2 t ht))
     rw [List.all_eq_true] at hstr
     have := hstr e he
     simp only [Bool.and_eq_true, beq_iff_eq] at this
-    show validNode schema (typeOfIn (stateEs "tag") t) (leaf t []) = true
+    show validNode schema (typeOfIn (elemsOf (schema.content "tag")) (enumValue CR.Py.Gen.tag t)) (leaf (enumValue CR.Py.Gen.tag t) []) = true
     rw [hty, this.1]; exact leaf_string _ _
 
 /-! ### the root element -/
@@ -119,7 +135,8 @@ def rootDecl : List AttrP := match schema.lookup "/commonRoad" with | some (.com
 theorem lk_root : schema.lookup "/commonRoad" = some (.complex rootDecl false (schema.content "/commonRoad")) := by decide
 
 theorem header_ok {d : DocD} (h : HeaderOk d) : attrsOk schema rootDecl (headerAttrs d) = true := by
-  obtain ⟨hdt, hver, hdate⟩ := h
+  obtain ⟨hdt, hdate⟩ := h
+  have hver : acceptsV "/commonRoad/@commonRoadVersion" CR.Py.Gen.scenarioVersion = true := enum_total.2.2.2.2.2.2.2.2
   have hd : rootDecl =
       [{ name := "commonRoadVersion", type := "/commonRoad/@commonRoadVersion", required := true },
        { name := "benchmarkID", type := "xs:string", required := true },
